@@ -80,10 +80,15 @@ func cmdCheck(args []string) int {
 	verif := fs.String("verif", "/verif", "verif dir")
 	prop := fs.String("prop", "", "property id")
 	tier := fs.String("tier", "", "quick | thorough")
+	replayPath := fs.String("replay", "", "re-run a stored replay file against the current tree")
 	rebase := fs.Bool("rebaseline", false, "rewrite the ledger from this run (never done by a check run)")
+	triage := fs.Bool("triage", false, "treat every failing obligation as a regression (replay counterexamples); for investigating failures on the unchanged tree")
 	verbose := fs.Bool("v", false, "verbose")
 	evidenceOut := fs.String("evidence", "", "evidence file (default <verif>/evidence/<id>.json)")
 	fs.Parse(args)
+	if *replayPath != "" {
+		return cmdReplay(*replayPath, *repo)
+	}
 	if *tier == "" {
 		*tier = os.Getenv("VERIF_TIER")
 	}
@@ -123,6 +128,13 @@ func cmdCheck(args []string) int {
 		}
 	}
 
+	replays := loadReplayConfigs(*verif)
+	observeFor := func(spec *vc.FuncSpec, short string) map[string]string {
+		if rc, ok := replays[short]; ok {
+			return rc.Observables
+		}
+		return nil
+	}
 	// generate
 	var results []*vc.FuncResult
 	var bindErrs []string
@@ -142,7 +154,7 @@ func cmdCheck(args []string) int {
 			continue
 		}
 		for _, f := range fns {
-			results = append(results, vc.VerifyFunc(p, f, spec))
+			results = append(results, vc.VerifyFunc(p, f, spec, observeFor(spec, vc.ShortName(f))))
 		}
 	}
 	genS := time.Since(t0).Seconds() - loadS
@@ -281,22 +293,33 @@ func cmdCheck(args []string) int {
 			if f, ok := known[full]; ok {
 				knownHit = append(knownHit, fmt.Sprintf("KNOWN-FINDING: property=%s %s (obligation %s)", *prop, f.text, full))
 				entry["verdict"] = "known-finding"
-			} else if _, was := led.Proved[full]; was {
-				// model (if any) for the failing path
+			} else if _, was := led.Proved[full]; was || *triage {
+				// counterexample for the failing path, replayed on the real code when the function has a replay template
 				r := resByFunc[or.Func]
-				model := ""
-				if a.Result == "sat" {
-					ms := vc.NewSolver(filepath.Join(*verif, "out"), false, 10*time.Second)
-					ma := ms.Solve(r.Query(q, true))
-					model = ma.Output
-				}
-				rp := writeReplay(full, map[string]interface{}{
+				data := map[string]interface{}{
 					"property": *prop, "obligation": full, "clause": or.Obl.Src, "kind": or.Obl.Kind,
 					"failing_path_blocks": q.Trail, "solver": a.Solver, "solver_result": a.Result, "solver_output": trim(a.Output, 4000),
-					"smt_file": a.File, "model": trim(model, 20000),
+					"smt_file": a.File,
 					"note": "obligation discharged on the baseline tree (ledger) and no longer discharged on this tree",
-				})
-				viols = append(viols, violation{name: full, reason: a.Result, replay: rp, noCex: true})
+				}
+				noCex := true
+				if a.Result == "sat" {
+					if rc, ok := replays[or.Func]; ok {
+						vals, mtext := modelValues(r, q, replayDir)
+						data["model_values"] = vals
+						data["model_output"] = trim(mtext, 4000)
+						out := runReplay(*verif, *repo, rc, vals, replayDir, full)
+						data["replay"] = out
+						data["replay_config"] = rc
+						if out.Reproduced {
+							noCex = false
+						}
+					} else {
+						data["model_note"] = "solver answered sat; no replay template for this function"
+					}
+				}
+				rp := writeReplay(full, data)
+				viols = append(viols, violation{name: full, reason: a.Result, replay: rp, noCex: noCex})
 			} else {
 				undecided = append(undecided, full+" ("+a.Result+")")
 			}
@@ -337,7 +360,7 @@ func cmdCheck(args []string) int {
 		rp := writeReplay("vacuity_"+v, map[string]interface{}{"property": *prop, "obligation": "vacuity:" + v})
 		viols = append(viols, violation{name: "vacuity:" + v, reason: "vacuous", replay: rp, noCex: true})
 	}
-	if len(led.Proved) == 0 && !*rebase {
+	if len(led.Proved) == 0 && !*rebase && !*triage {
 		return fail("no ledger for %s: run with --rebaseline once the obligations are discharged", *prop)
 	}
 
